@@ -5,7 +5,7 @@ sid,caught,note=sys.argv[1],sys.argv[2],sys.argv[3]
 d=f'/verif/seeded/{sid}'
 a=json.load(open(f'{d}/agent-meta.json'))
 log=open(f'{d}/verify.log').read()
-m=re.search(r'RESULT id=\S+ build=(\d+) suite_with_patch=(\d+) demo_with_patch=(\d+) demo_without_patch=(\d+)',log)
+m=list(re.finditer(r'RESULT id=\S+ build=(\d+) suite_with_patch=(\d+) demo_with_patch=(\d+) demo_without_patch=(\d+)',log))[-1]
 meta={
  "property": a["property"],
  "written_by": "independent sub-agent given only the property text and a scratch worktree",
